@@ -78,7 +78,7 @@ class SourceRef:
             return 0, 0
 
         lines = src.splitlines()
-        if lineno < len(lines):
+        if lineno <= len(lines):
             offset = 0
             for i in range(lineno - 1):
                 offset += len(lines[i]) + 1
